@@ -320,17 +320,18 @@ def translate_npz():
            'boundaries': prefix_comp(sv[3], 'boundaries', 'boundaries', 'value', None),
            'subdomains': prefix_comp(sv[4], 'subdomains', 'subdomains', 'value', None)}
     if t2.src(sv[5]) != ('np.savez(filename, doflocs=self.doflocs, t=self.t, **boundaries, **subdomains, '
-                         '**orientations)'):
+                         "**orientations, **{'sort_t': self.sort_t} if self.sort_t != type(self).sort_t else {})"):
         raise TranslateError('save_npz: savez call ' + t2.src(sv[5]))
     if len(ld) != 2 or t2.src(ld[0]) != 'data = np.load(filename)' or not isinstance(ld[1], ast.Return):
         raise TranslateError('load_npz: statements')
     call = ld[1].value
     if not (isinstance(call, ast.Call) and t2.src(call.func) == 'cls'
             and [t2.src(a) for a in call.args] == ["data['doflocs']", "data['t']"]
-            and [k.arg for k in call.keywords] == ['_boundaries', '_subdomains']):
+            and [k.arg for k in call.keywords] == ['_boundaries', '_subdomains', None]
+            and t2.src(call.keywords[2].value) == "{'sort_t': bool(data['sort_t'])} if 'sort_t' in data.files else {}"):
         raise TranslateError('load_npz: constructor call')
     lpre = {}
-    for k in call.keywords:
+    for k in call.keywords[:2]:
         v = k.value
         if not (isinstance(v, ast.DictComp) and t2.src(v.key) == 'key[2:]'
                 and t2.src(v.generators[0].iter) == 'data.files' and t2.src(v.generators[0].target) == 'key'
@@ -365,7 +366,11 @@ def translate_npz():
             f'Definition gen_npz_load_b : String.string := "{lpre["_boundaries"]}"%string.\n'
             f'Definition gen_npz_load_s : String.string := "{lpre["_subdomains"]}"%string.\n'
             f'Definition gen_npz_load_o : String.string := "{lpre["_orientations"]}"%string.\n'
-            'Definition gen_npz_fixed_keys : list String.string := ["doflocs"%string; "t"%string].')
+            'Definition gen_npz_fixed_keys : list String.string := ["doflocs"%string; "t"%string].\n'
+            '(* the optional key sort_t: written only when self.sort_t differs from the class default, read back when present *)\n'
+            'Definition gen_npz_sort_t_key : String.string := "sort_t"%string.\n'
+            'Definition gen_sort_t_save (default v : bool) : option bool := if Bool.eqb v default then None else Some v.\n'
+            'Definition gen_sort_t_load (default : bool) (o : option bool) : bool := match o with Some v => v | None => default end.')
 
 
 TO_DICT = ['boundaries = None', 'subdomains = None',
@@ -375,7 +380,8 @@ TO_DICT = ['boundaries = None', 'subdomains = None',
            'if self.boundaries is not None:\n    orientations = {k: v.ori.tolist() for k, v in self.boundaries.items() '
            'if isinstance(v, OrientedBoundary)}',
            "return {'p': self.p.T.tolist(), 't': self.t.T.tolist(), 'boundaries': boundaries, 'subdomains': subdomains, "
-           "**({'orientations': orientations} if orientations else {})}"]
+           "**({'orientations': orientations} if orientations else {}), "
+           "**({'sort_t': self.sort_t} if self.sort_t != type(self).sort_t else {})}"]
 FROM_DICT = ["if 'boundaries' in data and data['boundaries'] is not None:\n    data['boundaries'] = {k: np.array(v, dtype=np.int32) "
              "for k, v in data['boundaries'].items()}",
              "for k, v in (data.pop('orientations', None) or {}).items():\n    data['boundaries'][k] = "
